@@ -178,9 +178,11 @@ def finish(run, args):
         hs = []
         for f in run.unsupported:
             for table in (getattr(mod, "REPLAY", {}), getattr(mod, "SEARCH", {})):
-                h = pick(table, f)
-                if h and h not in hs:
-                    hs.append(h)
+                # every harness whose key occurs in the fault text (most specific first), then the default battery
+                keys = sorted((k for k in table if k != "*" and k in f), key=len, reverse=True)
+                for h in [table[k] for k in keys] + ([table["*"]] if "*" in table else []):
+                    if h not in hs:
+                        hs.append(h)
         for h in hs:
             res = native(h, dict(seed=run.seed), timeout=600)
             if res.get("violates") and not res.get("timed_out"):
